@@ -3,7 +3,8 @@
 From Coq Require Import List Arith Bool PeanoNat Lia Permutation.
 Import ListNotations.
 Require Import Fggs.Model.Replace Fggs.Proofs.Replace_base Fggs.Proofs.Replace_wf Fggs.Proofs.Replace_explicit
-  Fggs.Proofs.Replace_spec Fggs.Proofs.Replace_model_spec Fggs.Proofs.Replace_inv Fggs.Proofs.Replace_step.
+  Fggs.Proofs.Replace_spec Fggs.Proofs.Replace_model_spec Fggs.Proofs.Replace_inv Fggs.Proofs.Replace_step
+  Fggs.Proofs.Replace_nodup Fggs.Proofs.Replace_confl.
 
 Lemma glue_okb_spec : forall a att ac ext, glue_okb a att ac ext = true <->
   forall g v, In (g, v) (combine att ext) ->
@@ -264,31 +265,9 @@ End AsstStep.
 (** the initial state is in phase 0 *)
 Lemma init_invA : forall t nx, InvA (init_state t nx).
 Proof.
-  intros. unfold init_state. destruct (start_graph_model (r_lhs (t_rule t)) nx) as [[g nx1] e] eqn:E.
-  unfold start_graph_model in E. inversion E; subst. clear E.
+  intros. rewrite (init_explicit t nx).
   constructor; cbn [rs_asst rs_graph rs_pending].
   - intros v H. unfold amem in H. simpl in H. discriminate.
-  - left. split; auto. eexists. split; [reflexivity|]. cbn [tk_edge e_att].
-    unfold add_edge. cbn [has_edge_id empty_graph g_edges existsb e_att e_label e_id].
-    split.
-    + assert (M : forall ls g n, (forall x, In x (g_nodes g) -> id_lt n (n_id x)) ->
-                  g_nodes (add_missing_nodes g (fresh_nodes n ls)) = g_nodes g ++ fresh_nodes n ls).
-      { unfold add_missing_nodes. induction ls; simpl; intros; [rewrite app_nil_r; auto|].
-        cbn [n_id]. assert (HN : has_node_id g (Fresh n) = false).
-        { unfold has_node_id. destruct (existsb _ _) eqn:EX; auto. apply existsb_exists in EX.
-          destruct EX as [x [Hx Hi]]. apply id_eqb_eq in Hi. specialize (H x Hx). rewrite Hi in H. simpl in H. lia. }
-        rewrite HN. rewrite IHls.
-        - unfold push_node; simpl. rewrite <- app_assoc. reflexivity.
-        - intros x Hx. unfold push_node in Hx; simpl in Hx. apply in_app_iff in Hx. destruct Hx as [Hx|[<-|[]]].
-          + eapply id_lt_mono; [|apply H; auto]. lia.
-          + simpl. lia. }
-      destruct (add_edge_label _ _); cbn [fst g_nodes]; rewrite M by (simpl; tauto); reflexivity.
-    + assert (N : forall ls n, NoDup (fresh_nodes n ls)).
-      { intros ls n. apply (NoDup_map_NoDup n_id). revert n. induction ls; simpl; intros; constructor; auto.
-        intro H. apply in_map_iff in H. destruct H as [x [Ex Hx]].
-        assert (F : forall ls n x, In x (fresh_nodes n ls) -> exists k, n_id x = Fresh k /\ n <= k).
-        { clear. induction ls; simpl; intros; try tauto. destruct H as [<-|H]; [exists n; auto|].
-          destruct (IHls _ _ H) as [k [? ?]]. exists k; split; auto; lia. }
-        destruct (F _ _ _ Hx) as [k [Ek Hk]]. rewrite Ek in Ex. inversion Ex. lia. }
-      apply N.
+  - left. split; auto. eexists. split; [reflexivity|]. cbn [tk_edge start_edge e_att g_nodes].
+    split; auto. unfold start_nodes. apply (NoDup_map_NoDup n_id). apply fresh_nodes_ids_nodup.
 Qed.
